@@ -123,6 +123,16 @@ def check_text(ctx, text, wtree=None):
                 ctx.disagree('RAWCHARS WcMatch differs from the decoded pattern',
                              {'pattern': text, 'decoded': dec, 'mode': 'WcMatch', 'with_rawchars': repr(a)[:200],
                               'decoded_without': repr(b)[:200]})
+            # the folder-exclude pattern is decoded the same way (base-name and path-name form)
+            for extra in (0, WM.DIRPATHNAME | WM.FILEPATHNAME):
+                a = outcome(lambda: sorted(WM.WcMatch(wtree, '*', text, WM.RAWCHARS | WM.HIDDEN | WM.RECURSIVE | extra).match()))
+                b = outcome(lambda: sorted(WM.WcMatch(wtree, '*', dec, WM.HIDDEN | WM.RECURSIVE | extra).match()))
+                ctx.count('wcmatch_walks')
+                ctx.evals()
+                if a != b:
+                    ctx.disagree('RAWCHARS WcMatch folder-exclude pattern differs from the decoded pattern',
+                                 {'pattern': text, 'decoded': dec, 'mode': 'WcMatch-exclude', 'with_rawchars': repr(a)[:200],
+                                  'decoded_without': repr(b)[:200]})
 
 
 # pieces: (text, AST without RAWCHARS, AST with RAWCHARS (str))
@@ -205,6 +215,9 @@ def make_wtree():
     _base, root = env.mknested('c20-')
     for n in ('A', 'AA', 'x41', 'a', '1', 'u0041', 'A1', '101', 'x', '\t', '\\x41', 'N', '*'):
         open(os.path.join(root, n), 'w').close()
+    for dn in ('dA', 'J', 'dx41', 'd1', 'da'):
+        os.mkdir(os.path.join(root, dn))
+        open(os.path.join(root, dn, 'f'), 'w').close()
     return root
 
 
